@@ -707,8 +707,16 @@ func (e *Env) evalSel(n SSel) Val {
 		return Val{Tup: v.Tup}
 	}
 	if n.Name == "arg" && v.Org == "callevent" {
-		// calls[i].arg.k: the k-th argument of the logged call (a method's receiver is argument 0)
-		return Val{Tup: v.Elems}
+		// calls[i].arg.k: the k-th argument of the logged call (a method's
+		// receiver is argument 0); fields read through it are read in the
+		// state in which the call was made
+		tup := make([]Val, len(v.Elems))
+		for i, a := range v.Elems {
+			a.From = v.From
+			a.Org = "callarg"
+			tup[i] = a
+		}
+		return Val{Tup: tup}
 	}
 	if v.Typ == nil {
 		return e.fail("selector on untyped value in %s", exprString(n))
@@ -719,6 +727,15 @@ func (e *Env) evalSel(n SSel) Val {
 // selectField follows (possibly embedded) fields, dereferencing pointers.
 func (e *Env) selectField(v Val, name, src string) Val {
 	x := e.x
+	if v.Org == "callarg" && v.From != nil && v.From.Snap != nil && e.st != v.From.Snap {
+		e2 := e.child()
+		e2.st = v.From.Snap
+		v2 := v
+		v2.Org = ""
+		r := e2.selectField(v2, name, src)
+		// definitional facts recorded in the snapshot hold in the query too
+		return r
+	}
 	obj, index, _ := types.LookupFieldOrMethod(v.Typ, true, e.pkg, name)
 	if obj == nil && e.pkg != nil {
 		// unexported field of another package of the repo
@@ -768,7 +785,7 @@ func (e *Env) evalIndex(n SIndex) Val {
 			return Val{Org: "callevent-missing", Tup: nil, T: x.d.Fresh("noevent", "Bool")}
 		}
 		ev := e.events[iv.V]
-		return Val{Org: "callevent", Tup: ev.Results, Elems: ev.Args}
+		return Val{Org: "callevent", Tup: ev.Results, Elems: ev.Args, From: ev}
 	}
 	v := e.eval(n.X)
 	i := e.eval(n.I)
